@@ -134,7 +134,8 @@ unsafe fn level_swap<M: Manager>(
         // lower level, and keep the original node at the upper level (with the
         // children replaced by the newly created ones).
 
-        let grandchildren: SmallVec<[_; 2]> = children
+        // owned edges, dropped below
+        let grandchildren: SmallVec<[SmallVec<[M::Edge; 2]>; 2]> = children
             .iter()
             .map(|c| {
                 // A child of a node at the old upper level can only reference
@@ -143,8 +144,9 @@ unsafe fn level_swap<M: Manager>(
                 match manager.get_node(c) {
                     Node::Inner(node) if node.level() == lower_no_pre => {
                         // We have exclusive access to the node
-                        let children: SmallVec<[_; 2]> =
-                            M::Rules::cofactors(c.tag(), node).collect();
+                        let children: SmallVec<[_; 2]> = M::Rules::cofactors(c.tag(), node)
+                            .map(|e| manager.clone_edge(&e))
+                            .collect();
                         debug_assert_eq!(children.len(), M::InnerNode::ARITY);
                         children
                     }
@@ -153,9 +155,12 @@ unsafe fn level_swap<M: Manager>(
                         // before the reordering operation, so we cannot
                         // compare it against `lower_no`.
                         debug_assert_ne!(node.level(), upper_no_pre);
-                        // The child is below the lower level, so we always have
-                        // this child
-                        (0..M::InnerNode::ARITY).map(|_| c.borrowed()).collect()
+                        // The child is below the lower level, i.e., it skips
+                        // the lower level's variable. What the cofactors are
+                        // depends on the kind of decision diagram.
+                        (0..M::InnerNode::ARITY)
+                            .map(|i| M::Rules::cofactor_skipped(manager, c, i))
+                            .collect()
                     }
                 }
             })
@@ -190,7 +195,9 @@ unsafe fn level_swap<M: Manager>(
             })
             .collect();
 
-        drop(grandchildren);
+        for e in grandchildren.into_iter().flatten() {
+            manager.drop_edge(e);
+        }
         // Revisit the "old" children of `e`. If `node` holds the only
         // reference to such a child at the old lower level, the child becomes
         // dead once we replace the children of `node` below, and we can
